@@ -359,6 +359,18 @@ impl Node {
         })
     }
 
+    /// SDK client over HTTP/JSON (axum server of this incarnation); not logged in.
+    pub fn http_client(&self) -> IggyClient {
+        let addr = self.http_addr.expect("http not started");
+        IggyClient::builder().with_http().with_api_url(format!("http://{addr}")).build().expect("http client build")
+    }
+
+    pub fn http_root_client(&self) -> IggyClient {
+        let c = self.http_client();
+        self.block_on(async { c.login_user("iggy", "iggy").await.expect("root login over http") });
+        c
+    }
+
     pub fn tcp_root_client(&self) -> IggyClient {
         let c = self.tcp_client();
         self.block_on(async { c.login_user("iggy", "iggy").await.expect("root login") });
